@@ -172,7 +172,9 @@ def _minmax(name, a, is_min, axis=None, skipnan=False):
 
 
 def _minmax_axis(name, a, is_min, axis):
-    raise Unsupported("%s with axis" % name)
+    from .sums import array_minmax_axis
+
+    return array_minmax_axis(a, axis, is_min)
 
 
 def _quantified_bool(name, a, want_any):
@@ -683,6 +685,18 @@ class _NP:
                 tot = tot + _numeric(v)
             return div(tot, len(vals))
         return array_mean(as_array(a), axis)
+
+    def median(self, a, axis=None):
+        from .sums import array_median
+
+        _use("median")
+        return array_median(as_array(a), axis)
+
+    def var(self, a, axis=None):
+        raise Unsupported("np.var")
+
+    def std(self, a, axis=None):
+        raise Unsupported("np.std")
 
     def unravel_index(self, indices, shape):
         _use("unravel_index")
